@@ -123,7 +123,13 @@ func (obj Object) CompletionAtPos(ctx context.Context, pos hcl.Pos) []lang.Candi
 				// it means the attribute is likely quoted
 				if pos.Byte >= attrRange.Start.Byte {
 					prefixLen := pos.Byte - attrRange.Start.Byte
-					prefix = attrName[0:prefixLen]
+					if prefixLen <= len(attrName) {
+						prefix = attrName[0:prefixLen]
+					} else {
+						// the raw key can be shorter than its source text
+						// (e.g. quoted key with escape sequences)
+						prefix = attrName
+					}
 				}
 
 				editRange := hcl.RangeBetween(item.KeyExpr.Range(), item.ValueExpr.Range())
